@@ -231,6 +231,48 @@ def do_c11(case):
     return {"schema": dump, "additional": add_dump, "lost_resolvers": lost}
 
 
+def do_c11_history(case):
+    """several build_schema / extend_schema calls that share the caller's
+    additional_types objects"""
+    from py_gql import build_schema
+    from py_gql.lang import parse
+    from py_gql.sdl import extend_schema
+    from . import ser_sdl
+
+    additional = build_additional(case.get("additional") or [])
+    pristine = [ser_sdl.jtype(t) for t in additional]
+    facts = _resolver_facts(additional)
+    steps, mutated = [], []
+    for n, st in enumerate(case["steps"]):
+        try:
+            doc = parse(st["sdl"], allow_type_system=True)
+            base_doc = parse(st["base"], allow_type_system=True) if st["op"] == "extend" else None
+        except Exception as e:  # noqa
+            return {"harness_error": "generated document does not parse: %r" % (e,)}
+        try:
+            if st["op"] == "extend":
+                base = build_schema(base_doc, ignore_extensions=True, additional_types=additional or None)
+                schema = extend_schema(base, doc, additional_types=additional or None)
+            else:
+                schema = build_schema(doc, ignore_extensions=bool(st.get("ignore_extensions")),
+                                      additional_types=additional or None)
+            o = {"schema": ser_sdl.dump_schema(schema)}
+            after = _resolver_facts(schema.types.values())
+            o["lost_resolvers"] = sorted(k for k, v in facts.items() if k in after and after[k] != v)
+        except BaseException as e:  # noqa
+            if isinstance(e, (KeyboardInterrupt, SystemExit)):
+                raise
+            o = exc_obs(e)
+        steps.append(o)
+        try:
+            now = [ser_sdl.jtype(t) for t in additional]
+        except BaseException as e:  # noqa
+            now = "<%s>" % type(e).__name__
+        if now != pristine or _resolver_facts(additional) != facts:
+            mutated.append(n)
+    return {"additional": pristine, "steps": steps, "mutated": mutated}
+
+
 def main():
     sys.setrecursionlimit(1500)
     out = sys.stdout.buffer
@@ -238,7 +280,7 @@ def main():
         req = json.loads(line.decode("utf-8"))
         try:
             if req["op"] == "c11":
-                res = do_c11(req["case"])
+                res = do_c11_history(req["case"]) if "steps" in req["case"] else do_c11(req["case"])
             elif req["op"] == "c12":
                 from . import sdl_impl12
                 res = sdl_impl12.do_c12(req["case"])
